@@ -48,6 +48,8 @@ type realiser struct {
 	spec     *lazySpecView
 	fresh    int
 	problems []string
+	// forced: identifiers whose declaration the model determines (a constant with a known value)
+	forced map[string]string
 }
 
 type lazySpecView struct {
@@ -69,6 +71,15 @@ func (r *realiser) s(key string) (string, bool) {
 		return strconv.FormatBool(v), true
 	}
 	return "", false
+}
+
+// constString: the constant string value the explored path read for the expression at path
+// (a menu entry, or a solver-chosen text when the "conststr" bound makes it symbolic)
+func (r *realiser) constString(path string) (string, bool) {
+	if v, ok := r.s("StringVal(L:info.Types[" + path + "].Value)"); ok {
+		return v, true
+	}
+	return r.s("StringVal(L:info.Types[" + path + "].Value)?s")
 }
 
 func (r *realiser) freshName() string {
@@ -103,6 +114,27 @@ func (r *realiser) defaultIface(t reflect.Type) reflect.Value {
 
 // buildIface builds the node stored in an interface-typed slot at path.
 func (r *realiser) buildIface(path, key string, t reflect.Type) reflect.Value {
+	v := r.buildIface0(path, key, t)
+	// an identifier whose constant value the code read is declared as that constant
+	if sv, ok := r.constString(path); ok && v.IsValid() && v.Kind() == reflect.Ptr && !v.IsNil() {
+		if be, isBin := v.Interface().(*ast.BinaryExpr); isBin {
+			// a constant concatenation with that value (the operands the path looked at are
+			// replaced: what matters natively is the expression's kind and value)
+			be.Op = token.ADD
+			be.X = &ast.BasicLit{Kind: token.STRING, Value: `""`}
+			be.Y = &ast.BasicLit{Kind: token.STRING, Value: strconv.Quote(sv)}
+		}
+		if id, isIdent := v.Interface().(*ast.Ident); isIdent {
+			if r.forced == nil {
+				r.forced = map[string]string{}
+			}
+			r.forced[id.Name] = fmt.Sprintf("const %s = %s\n", id.Name, strconv.Quote(sv))
+		}
+	}
+	return v
+}
+
+func (r *realiser) buildIface0(path, key string, t reflect.Type) reflect.Value {
 	if v, _ := r.s(path + "#nil"); v == "1" {
 		return reflect.Zero(t)
 	}
@@ -128,8 +160,16 @@ func (r *realiser) buildIface(path, key string, t reflect.Type) reflect.Value {
 	}
 	// an expression the code only looked at through its constant value
 	// (types.Info.Types[e].Value) is realised as a literal of that value
-	if sv, ok := r.s("StringVal(L:info.Types[" + path + "].Value)"); ok && t == exprIface {
-		return reflect.ValueOf(&ast.BasicLit{Kind: token.STRING, Value: strconv.Quote(sv)})
+	if sv, ok := r.constString(path); ok && t == exprIface {
+		lit := &ast.BasicLit{Kind: token.STRING, Value: strconv.Quote(sv)}
+		c, narrowed := r.s(path + "#cands")
+		switch {
+		case !narrowed || c == "" || strings.Contains(c, "*go/ast.BasicLit"):
+			return reflect.ValueOf(lit)
+		case strings.Contains(c, "*go/ast.ParenExpr"):
+			// the code ruled out a literal: a parenthesised literal is still a constant expression
+			return reflect.ValueOf(&ast.ParenExpr{X: lit})
+		}
 	}
 	if c, ok := r.s(path + "#cands"); ok && c != "" {
 		// narrowed but undecided: prefer a leaf the code did not single out
@@ -330,6 +370,71 @@ func fixup(n ast.Node) {
 		}
 		return true
 	})
+	// the keys of one composite literal agree in kind: next to a string-valued key, a literal
+	// key the explored path never looked into becomes a string literal too
+	ast.Inspect(n, func(x ast.Node) bool {
+		cl, ok := x.(*ast.CompositeLit)
+		if !ok {
+			return true
+		}
+		isStr := func(e ast.Expr) bool {
+			switch e := e.(type) {
+			case *ast.BasicLit:
+				return e.Kind == token.STRING
+			case *ast.BinaryExpr:
+				l, ok := e.X.(*ast.BasicLit)
+				return ok && l.Kind == token.STRING
+			case *ast.ParenExpr:
+				l, ok := e.X.(*ast.BasicLit)
+				return ok && l.Kind == token.STRING
+			}
+			return false
+		}
+		anyStr := false
+		for _, e := range cl.Elts {
+			if kv, ok := e.(*ast.KeyValueExpr); ok && isStr(kv.Key) {
+				anyStr = true
+			}
+		}
+		if anyStr {
+			for i, e := range cl.Elts {
+				if kv, ok := e.(*ast.KeyValueExpr); ok {
+					if bl, ok := kv.Key.(*ast.BasicLit); ok && bl.Kind != token.STRING {
+						kv.Key = &ast.BasicLit{Kind: token.STRING, Value: fmt.Sprintf(`"k%d"`, i)}
+					}
+				}
+			}
+		}
+		return true
+	})
+	// a composite literal may omit its type only inside another composite literal
+	{
+		nested := map[*ast.CompositeLit]bool{}
+		ast.Inspect(n, func(x ast.Node) bool {
+			if cl, ok := x.(*ast.CompositeLit); ok {
+				for _, e := range cl.Elts {
+					if kv, ok := e.(*ast.KeyValueExpr); ok {
+						if in, ok := kv.Value.(*ast.CompositeLit); ok {
+							nested[in] = true
+						}
+						if in, ok := kv.Key.(*ast.CompositeLit); ok {
+							nested[in] = true
+						}
+					}
+					if in, ok := e.(*ast.CompositeLit); ok {
+						nested[in] = true
+					}
+				}
+			}
+			return true
+		})
+		ast.Inspect(n, func(x ast.Node) bool {
+			if cl, ok := x.(*ast.CompositeLit); ok && cl.Type == nil && !nested[cl] {
+				cl.Type = &ast.Ident{Name: "gsxLitT"}
+			}
+			return true
+		})
+	}
 	// parameter lists: every field has a type; named and unnamed parameters are not mixed
 	ast.Inspect(n, func(x ast.Node) bool {
 		ft, ok := x.(*ast.FuncType)
@@ -506,7 +611,60 @@ func fixup(n ast.Node) {
 	})
 }
 
+// printNode prints a node; go/printer drops the inner pair of directly nested parentheses
+// (`((x))` prints as `(x)`), so inner parenthesised operands are printed separately and
+// spliced back textually.
 func printNode(n interface{}) (out string, err error) {
+	node, isNode := n.(ast.Node)
+	if !isNode {
+		return printNode0(n)
+	}
+	type hole struct {
+		outer *ast.ParenExpr
+		inner *ast.ParenExpr
+		name  string
+	}
+	var holes []hole
+	ast.Inspect(node, func(x ast.Node) bool {
+		if p, ok := x.(*ast.ParenExpr); ok {
+			if in, ok := p.X.(*ast.ParenExpr); ok {
+				h := hole{p, in, fmt.Sprintf("gsxPARENHOLE%d", len(holes))}
+				holes = append(holes, h)
+			}
+		}
+		return true
+	})
+	if len(holes) == 0 {
+		return printNode0(n)
+	}
+	for _, h := range holes {
+		h.outer.X = &ast.Ident{Name: h.name}
+	}
+	defer func() {
+		for _, h := range holes {
+			h.outer.X = h.inner
+		}
+	}()
+	text, err := printNode0(n)
+	if err != nil {
+		return "", err
+	}
+	// innermost holes last: substitute repeatedly
+	for round := 0; round < len(holes)+1; round++ {
+		for _, h := range holes {
+			if strings.Contains(text, h.name) {
+				in, err := printNode0(h.inner)
+				if err != nil {
+					return "", err
+				}
+				text = strings.ReplaceAll(text, h.name, in)
+			}
+		}
+	}
+	return text, nil
+}
+
+func printNode0(n interface{}) (out string, err error) {
 	var buf bytes.Buffer
 	defer func() {
 		if r := recover(); r != nil {
@@ -533,6 +691,7 @@ var stdPkgs = map[string]string{"regexp": "regexp", "sort": "sort", "filepath": 
 	"math": "math", "strconv": "strconv", "context": "context", "atomic": "sync/atomic", "path": "path", "reflect": "reflect", "unsafe": "unsafe", "rand": "math/rand"}
 
 type identUse struct {
+	ptrSels map[string]bool // selectors applied to (*name): name is a pointer to a struct
 	name     string
 	called   bool
 	nargs    int
@@ -549,7 +708,7 @@ func collectUses(file *ast.File) map[string]*identUse {
 	get := func(n string) *identUse {
 		u := uses[n]
 		if u == nil {
-			u = &identUse{name: n, sels: map[string]bool{}, selCall: map[string]bool{}}
+			u = &identUse{name: n, sels: map[string]bool{}, selCall: map[string]bool{}, ptrSels: map[string]bool{}}
 			uses[n] = u
 		}
 		return u
@@ -564,6 +723,19 @@ func collectUses(file *ast.File) map[string]*identUse {
 				u.selBase = true
 				u.sels[x.Sel.Name] = true
 			}
+			base := x.X
+			for {
+				p, ok := base.(*ast.ParenExpr)
+				if !ok {
+					break
+				}
+				base = p.X
+			}
+			if st, ok := base.(*ast.StarExpr); ok {
+				if id, ok := st.X.(*ast.Ident); ok {
+					get(id.Name).ptrSels[x.Sel.Name] = true
+				}
+			}
 		case *ast.CallExpr:
 			switch f := x.Fun.(type) {
 			case *ast.Ident:
@@ -576,9 +748,8 @@ func collectUses(file *ast.File) map[string]*identUse {
 				}
 			}
 		case *ast.KeyValueExpr:
-			if id, ok := x.Key.(*ast.Ident); ok {
-				skip[id] = true
-			}
+			// a key identifier is a field name in a struct literal but an ordinary (constant)
+			// operand in a map / slice literal: it gets a declaration either way
 		case *ast.Field:
 			for _, n := range x.Names {
 				skip[n] = true
@@ -601,7 +772,7 @@ func collectUses(file *ast.File) map[string]*identUse {
 	return uses
 }
 
-var valueTypes = []string{"chan int", "int", "string", "bool", "[]int", "*int", "float64", "[2]int", "map[string]int", "error", "interface{}", "func()", "[]string", "struct{ F int }", "chan int", "int64", "uint8"}
+var valueTypes = []string{"chan int", "int", "string", "bool", "[]int", "*int", "float64", "[2]int", "map[string]int", "error", "interface{}", "func()", "[]string", "struct{ F int }", "chan int", "int64", "uint8", "*[2]int"}
 
 var resultTypes = []string{"", "int", "*int", "string", "bool", "[]int", "error", "(int, int)", "interface{}", "float64", "func()", "map[string]int", "[2]int"}
 
@@ -657,13 +828,23 @@ func declMenu(u *identUse) []string {
 		}
 		out = append(out, fmt.Sprintf("type %s int\n", n), fmt.Sprintf("type %s struct{ F int }\n", n))
 	default:
+		if len(u.ptrSels) > 0 {
+			var sels []string
+			for s := range u.ptrSels {
+				sels = append(sels, s)
+			}
+			sort.Strings(sels)
+			for _, ft := range []string{"int", "func(a ...interface{}) int", "[2]int"} {
+				out = append(out, fmt.Sprintf("var %s *struct{ %s %s }\n", n, strings.Join(sels, ", "), ft))
+			}
+		}
 		for _, vt := range valueTypes {
 			out = append(out, fmt.Sprintf("var %s %s\n", n, vt))
 		}
 		out = append(out, fmt.Sprintf("type %s int\n", n), fmt.Sprintf("type %s struct{ F int }\n", n), fmt.Sprintf("type %s interface{ M() }\n", n),
-			fmt.Sprintf("const %s = 1\n", n), fmt.Sprintf("const %s = \"s\"\n", n), fmt.Sprintf("func %s() {}\n", n))
+			fmt.Sprintf("const %s = 1\n", n), fmt.Sprintf("const %s = \"s\"\n", n), fmt.Sprintf("const %s = \" s\"\n", n), fmt.Sprintf("func %s() {}\n", n))
 		// one named type per kind of underlying type
-		for _, ut := range []string{"complex128", "float32", "string", "bool", "uint8", "[]int", "*int", "map[string]int", "chan int", "func()", "[2]int"} {
+		for _, ut := range []string{"complex128", "float32", "string", "bool", "uint8", "[]int", "*int", "map[string]int", "chan int", "func()", "[2]int", "map[interface{}]int"} {
 			out = append(out, fmt.Sprintf("type %s %s\n", n, ut))
 		}
 		out = append(out, fmt.Sprintf("IMPORT unsafe\ntype %s unsafe.Pointer\n", n))
@@ -894,6 +1075,9 @@ func realise(model map[string]interface{}, spec *lazySpecView, rootPath, categor
 		total := 1
 		for i, n := range names {
 			menus[i] = declMenu(uses[n])
+			if d, ok := r.forced[n]; ok {
+				menus[i] = []string{d}
+			}
 			if len(menus[i]) == 0 {
 				menus[i] = []string{""}
 			}
